@@ -596,6 +596,7 @@ def c19(tier, seed, only=None):
     scns = [{"name": s.name, "wf": s.wf, "inputs": s.inputs} for s in
             gen.f2_all(tier) + gen.f3_all() + gen.f4_all(tier) + gen.f5_all(tier) + gen.f6_publish(tier)]
     scns += [{"name": n, "wf": wf, "inputs": {}} for n, wf in gen.graph_shapes(tier)]
+    scns += [{"name": n, "wf": wf, "inputs": {}} for n, wf in gen.rejected_defs()]
     if tier != "quick":
         scns += [{"name": s.name, "wf": s.wf, "inputs": s.inputs} for s in gen.f1_all(2)]
     # a definition that calls random() is not a function of its inputs by its own choice
